@@ -125,6 +125,61 @@ func runC03(c *eng.Ctx) {
 	}
 	c.Floor(12)
 
+	// ---- R03.7 every watermark advance / readonly switch wakes the parked readers
+	c.Rule("R03.7", "K2")
+	for _, a := range eng.StoresToField(p, hw, true) {
+		key := ir.FuncKey(a.Fn)
+		if key == "server/commitlog.(*commitLog).open" {
+			continue // nobody can be parked before the log is published
+		}
+		st := a.Use.(*ssa.Store)
+		q := &eng.PathQuery{Fn: a.Fn, FromAfter: []ssa.Instruction{st}, Target: func(x ssa.Instruction) bool {
+			return isReturn(x) || eng.IsCallTo("sync.RWMutex.Unlock")(x)
+		}, CutInstr: eng.IsCallTo("server/commitlog.commitLog.notifyHWChange")}
+		w := q.Find()
+		c.Check(w == nil, "watermark advance wakes parked readers in "+key, c.Pos(st), "every path from the store to the unlock passes notifyHWChange()", "the high watermark is advanced without notifying the readers parked in waitForHW (path "+w.String()+"): committed readers that already caught up never see the new messages")
+	}
+	if fn := c.Fn("server/commitlog.(*commitLog).SetReadonly"); fn != nil {
+		ro := eng.BoolEdges(fn, eng.Param("readonly"), true)
+		// the parameter is tested more than once: a path is a "readonly == true" path when it crosses no false edge of any test
+		notRO := eng.BoolEdges(fn, eng.Param("readonly"), false)
+		q := &eng.PathQuery{Fn: fn, FromEntry: true, Target: isReturn, CutEdges: notRO, CutInstr: eng.IsCallTo("server/commitlog.commitLog.notifyReadonly")}
+		w := q.Find()
+		c.Check(w == nil && len(ro) > 0, "switch to read-only wakes parked readers", p.Pos(fn.Pos()), "on readonly == true every path to the return passes notifyReadonly()", "SetReadonly(true) can return without waking the parked readers (path "+w.String()+"): subscriptions on a read-only partition never end")
+		for _, nr := range eng.CallsIn(fn, "server/commitlog.commitLog.notifyReadonly") {
+			la := eng.LocksOf(p, fn, 0)
+			held := la.At(nr.(ssa.Instruction))
+			okL := false
+			for k, m := range held {
+				if strings.HasSuffix(k, ".mu") && m == 2 {
+					okL = true
+				}
+			}
+			c.Check(okL, "readonly notification under the log lock", c.Pos(nr.(ssa.Instruction)), "l.mu write-held", "notifyReadonly is called without l.mu: it races with waiter registration")
+		}
+	}
+	if fn := c.Fn("server/commitlog.(*commitLog).notifyReadonly"); fn != nil {
+		// readers are only released when the watermark has reached the end of the log
+		behind := eng.CmpEdges(fn, eng.Load(hw, nil), eng.Call(-1, "server/commitlog.commitLog.NewestOffset"), eng.LT)
+		q := &eng.PathQuery{Fn: fn, FromEdges: behind, Target: func(x ssa.Instruction) bool { _, ok := x.(*ssa.Send); return ok }}
+		c.Check(q.Find() == nil && len(behind) > 0, "read-only end-of-log only when everything is committed", p.Pos(fn.Pos()), "no reader is told 'end of readonly log' while hw < newest offset", "readers can be told the read-only log ended although committed messages are still outstanding")
+	}
+	if fn := c.Fn("server/commitlog.(*commitLog).waitForHW"); fn != nil {
+		// the immediate readonly answer requires hw == newest && IsReadonly()
+		eq := eng.CmpEdges(fn, eng.Load(hw, nil), eng.Call(-1, "server/commitlog.commitLog.NewestOffset"), eng.EQ)
+		ro := eng.BoolEdges(fn, eng.Call(-1, "server/commitlog.commitLog.IsReadonly"), true)
+		eng.Instrs(fn, func(in ssa.Instruction) {
+			if snd, ok := in.(*ssa.Send); ok {
+				if k, ok := snd.X.(*ssa.Const); ok && k.Value != nil && k.Value.String() == "true" {
+					g1, _ := eng.GuardedBy(fn, snd, eq)
+					g2, _ := eng.GuardedBy(fn, snd, ro)
+					c.Check(g1 && g2, "immediate read-only answer", c.Pos(snd), "only when l.hw == NewestOffset() ∧ IsReadonly()", "waitForHW answers 'read-only end' without hw == newest ∧ readonly")
+				}
+			}
+		})
+	}
+	c.Floor(5)
+
 	// ---- R03.4 read limit and re-sync
 	c.Rule("R03.4", "K1")
 	if fn := c.Fn("server/commitlog.(*committedReader).readLoop"); fn != nil {
